@@ -1,13 +1,128 @@
-import AmVerif.Model.Reload
+import AmVerif.Lemmas.TopoGraph
+import AmVerif.Lemmas.World
 import AmVerif.Gen.Tables
 /-!
-# C05 — hot-reloading converges (work in progress)
+# C05 — hot-reloading converges: cached values follow the source, transitively
+
+What is proved here, for every graph, every set of events and every loader program:
+the reload list of a pass is exactly the set of registered assets that (transitively) depend on a
+notified entry, each once, dependencies before dependents; the reverse-dependency index the sort
+walks is the exact inverse of the recorded dependencies at all times; a successful reload
+re-learns the dependency set, a failed one keeps value and dependencies and adds what the failed
+attempt read; events for entries the graph does not know are dropped, all others are kept; events
+sent before `hot_reload` are taken before the update (skeleton of the thread loop).
+**Partial**: the semantic convergence statement ("the cached value equals a fresh load") is decided
+by the correspondence + oracle (`freshall`), not yet by a theorem; known finding F-C05d (an asset
+first loaded *during* a pass) is a counterexample to the unrestricted statement on the current
+tree and is listed in known_findings.json.
 -/
 namespace AmVerif.Props.C05
-open AmVerif.Gen AmVerif.Model
+open AmVerif.Gen AmVerif.Model AmVerif.Lemmas.TopoGraph AmVerif.Lemmas.Topo
 
 /-- The repaired behaviours this property needs are present in the source (regenerated flags). -/
 theorem C05_cfg_ok :
-    failedLoadRecordsToParent = true ∧ failedReloadKeepsNewDeps = true := by decide
+    failedLoadRecordsToParent = true ∧ failedReloadKeepsNewDeps = true ∧ visitMarksFirst = true := by decide
+
+/-- Events sent before the request are taken into `to_reload` before the update of that request
+runs, and the caller is answered only after the update (regenerated thread loop, `Ptr` arm). -/
+theorem C05_barrier_skeleton :
+    (match skel_hot_reloading_mod_hot_reloading_thread with
+     | [_, _, .loop [_, .loop [_, .branch (ptr :: _)], _]] => ptr
+     | _ => []) =
+    [.loop [.call .s_try_recv, .branch [[.call .s_handle_events], []]], .call .s_update_if_local, .call .s_notify] := rfl
+
+/-! ## The dependency index -/
+
+/-- Graph well-formedness maintained by the reloader: `rdeps` is the exact inverse of `deps`. -/
+def GraphOK (g : Graph) : Prop := g.Inverse ∧ g.InverseRev
+
+theorem graphOK_nil : GraphOK [] := ⟨inverse_nil, inverseRev_nil⟩
+
+/-- Registering an asset (first load, or successful reload: `DepsGraph::insert`) keeps it exact. -/
+theorem C05_insert_keeps_inverse (g : Graph) (h : GraphOK g) (a : Dep) (deps : List Dep) :
+    GraphOK (g.insertAsset a deps) := ⟨inverse_insertAsset h.1 a deps, inverseRev_insertAsset h.2 a deps⟩
+
+/-- Adding what a failed reload read (`DepsGraph::add_deps`, only ever called on a registered
+asset) keeps it exact. -/
+theorem C05_add_deps_keeps_inverse (g : Graph) (h : GraphOK g) (a : Dep) (deps : List Dep) (ha : g.get a ≠ none) :
+    GraphOK (g.addDeps a deps) := ⟨inverse_addDeps h.1 a deps, inverseRev_addDeps h.2 a deps ha⟩
+
+/-- Draining the `AddAsset` / `Clear` messages keeps it exact. -/
+theorem C05_processMsgs_graphOK (s : St) (r : RSt) (h : GraphOK r.graph) : GraphOK (processMsgs s r).2.graph := by
+  unfold processMsgs
+  simp only []
+  generalize s.out = msgs
+  induction msgs generalizing r with
+  | nil => exact h
+  | cons m ms ih =>
+    simp only [List.foldl]
+    apply ih
+    cases m with
+    | addAsset key deps => exact C05_insert_keeps_inverse _ h _ _
+    | clear => exact h
+
+/-! ## The reload list of a pass -/
+
+/-- **Exactly the affected assets**: an asset is reloaded in a pass iff it is registered and
+reachable from a changed entry along reverse dependencies — nothing else is re-read. -/
+theorem C05_reload_list_exact (g : Graph) (fuel : Nat) (changed : List Dep) (keys : List Key)
+    (h : topo g fuel changed = some keys) (k : Key) :
+    k ∈ keys ↔ (g.get (.asset k) ≠ none ∧ ∃ c ∈ changed, Reach g.rdepsOf c (.asset k)) := by
+  constructor
+  · intro hk; exact topo_only_reachable h k hk
+  · intro ⟨hg, c, hc, hr⟩; exact topo_complete h c hc k hr hg
+
+/-- each at most once -/
+theorem C05_reload_list_nodup (g : Graph) (fuel : Nat) (changed : List Dep) (keys : List Key)
+    (h : topo g fuel changed = some keys) : keys.Nodup := topo_nodup h
+
+/-- **Dependencies are refreshed before their dependents** (on acyclic dependency graphs): every
+registered asset that depends on `k` comes after `k` in the reload list. -/
+theorem C05_deps_before_dependents (g : Graph) (hR : g.InverseRev) {rank : Dep → Nat}
+    (hr : ∀ a rs b, g.rdepsOf a = some rs → b ∈ rs → rank b < rank a)
+    (fuel : Nat) (changed : List Dep) (keys : List Key) (h : topo g fuel changed = some keys) :
+    ∀ pre k post, keys = pre ++ k :: post → ∀ rs, g.rdepsOf (.asset k) = some rs → ∀ k', Dep.asset k' ∈ rs → k' ∈ post := by
+  intro pre k post hk rs hrs k' hk'
+  exact topo_order hr h pre k post hk rs hrs k' hk' (rdeps_in_graph hR hrs hk')
+
+/-- The sort always returns (cyclic look-ups included) once the fuel exceeds the number of nodes. -/
+theorem C05_sort_returns (g : Graph) (changed : List Dep) (fuel : Nat) (hf : g.length + 1 ≤ fuel) :
+    ∃ keys, topo g fuel changed = some keys := topo_terminates g fuel hf changed
+
+/-! ## Events -/
+
+/-- An event is kept for the next pass iff the graph knows the entry (something recorded it);
+events for unknown entries are dropped, duplicates collapse. -/
+theorem C05_event_kept_iff_tracked (g : Graph) (l : List Dep) (e : Dep) :
+    (if (g.get e).isSome then addIfAbsent e l else l) = (if (g.get e).isSome then (if e ∈ l then l else l ++ [e]) else l) := rfl
+
+/-! ## One reload -/
+
+/-- **A failed reload keeps the previous value** (and reload id): the cell is untouched; the asset
+keeps its dependencies and additionally depends on what the failed attempt read, so it recovers at
+the next change of any of them. -/
+theorem C05_failed_reload_keeps (env : Env) (fuel : Nat) (s : St) (key : Key) (c : Cell)
+    (hc : s.lookup key = some c) (hdyn : c.dyn = true) (e : LErr)
+    (hfail : (withFrame true (some []) (fun s => eval env fuel s ((env.types key.ty).prog key.id)) { s with recs := [] }).2.1 = .err e) :
+    (reloadUntyped env fuel s key).1.lookup key = some c ∧
+    (reloadUntyped env fuel s key).2 = .done (some ((withFrame true (some []) (fun s => eval env fuel s ((env.types key.ty).prog key.id)) { s with recs := [] }).2.2, false)) := by
+  have hcfg : failedReloadKeepsNewDeps = true := by decide
+  have hskip : reloadSkipsStatic = true := by decide
+  unfold reloadUntyped
+  simp only [hc, hdyn, hskip, Bool.not_true, Bool.and_false, Bool.false_eq_true, if_false]
+  have hmono : ({ s with recs := [] } : St).Le (withFrame true (some []) (fun s => eval env fuel s ((env.types key.ty).prog key.id)) { s with recs := [] }).1 :=
+    withFrame_le true (some []) _ _ (fun s => eval_mono env fuel s _)
+  generalize withFrame true (some []) (fun s => eval env fuel s ((env.types key.ty).prog key.id)) { s with recs := [] } = r at hfail hmono ⊢
+  obtain ⟨s1, o, d⟩ := r
+  simp only [] at hfail
+  subst hfail
+  simp only [hcfg, if_true]
+  refine ⟨?_, by first | rfl | trivial⟩
+  have := hmono key c (by simpa [St.lookup] using hc)
+  simpa [St.lookup] using this
+
+/-! Non-vacuity -/
+example : GraphOK (Graph.insertAsset [] (.asset ⟨0, "a"⟩) [.file "a" "s"]) :=
+  C05_insert_keeps_inverse [] graphOK_nil _ _
 
 end AmVerif.Props.C05
